@@ -320,7 +320,11 @@ def _inspect(obj, name, word_wrap):
     doc = getdoc(obj) or ""
     sig = signature(obj)
     is_function = isfunction(obj)
-    ir = docstring(doc, emit_default_doc=is_function) if doc else {}
+    ir = (
+        docstring(doc, emit_default_doc=is_function)
+        if doc
+        else {"params": OrderedDict(), "returns": None}
+    )
     if not is_function and "type" in ir:
         del ir["type"]
 
